@@ -983,6 +983,74 @@ def r6_session_expiry(run):
                   "%s:%d" % (rm.relpath, st.lineno))
 
 
+LOCAL_CLOCK = {"mktime", "localtime", "fromtimestamp", "ctime", "asctime"}
+CLOCK_CONE = [
+    "response.StatusResponse.issue_instant_ok", "request.Request.issue_instant_ok",
+    "validate.validate_on_or_after", "validate.validate_before",
+    "time_util.before", "time_util.after", "time_util.later_than",
+    "time_util.utc_now", "time_util.time_in_a_while",
+    "time_util.time_a_while_ago", "time_util.shift_time",
+    "time_util.str_to_time", "response.AuthnResponse.condition_ok",
+    "response.AuthnResponse._bearer_confirmed",
+    "response.AuthnResponse.authn_statement_ok", "cache.Cache.get",
+    "cache.Cache.active", "cache.Cache.set",
+]
+
+
+def r7_clock_sources(run):
+    run.rule("R7", "every instant that enters a validity comparison is UTC: no "
+             "function on the checking paths reads the clock or converts a "
+             "time tuple through the process's local zone (mktime / localtime "
+             "/ naive datetime.now / fromtimestamp), directly or through a "
+             "package helper that does")
+    m = run.model
+
+    def direct(fnode):
+        out = []
+        for c in ast.walk(fnode):
+            if not isinstance(c, ast.Call):
+                continue
+            nm = call_name(c)
+            ch = attr_chain(c.func) or ""
+            if nm in LOCAL_CLOCK or ch.endswith("datetime.now") or \
+                    ch == "datetime.now" or ch.endswith("datetime.today"):
+                if nm == "now" and (c.args or c.keywords):
+                    continue           # now(tz) is zone-aware
+                out.append(c)
+        return out
+    # package helpers of time_util / validate that depend on the local zone
+    local_helpers = {}
+    for modname in ("time_util", "validate"):
+        mi = m.module(modname)
+        for name, f in mi.functions.items():
+            d = direct(f.node)
+            if d:
+                local_helpers[name] = (f, d[0])
+    run.count("R7.local-zone helpers in time_util/validate", len(local_helpers))
+    run.require("utc_time_sans_frac" in local_helpers or
+                m.func("time_util.utc_time_sans_frac", required=False) is None,
+                "R7 positive control: utc_time_sans_frac (mktime of a UTC "
+                "tuple) is not recognised as local-zone dependent")
+    n = 0
+    for q in CLOCK_CONE:
+        f = m.func(q, required=False)
+        if f is None:
+            continue
+        n += 1
+        bad = ["%s()" % unparse(c.func) for c in direct(f.node)]
+        for c in ast.walk(f.node):
+            if isinstance(c, ast.Call) and call_name(c) in local_helpers and \
+                    call_name(c) != f.name:
+                bad.append("%s() [calls %s]" % (
+                    unparse(c.func), unparse(local_helpers[call_name(c)][1].func)))
+        run.check(not bad, "R7", f.qual + "::utc-only",
+                  "no local-zone clock or conversion",
+                  "uses %s: the instant depends on the time zone the process "
+                  "runs in, so windows shift by the UTC offset" % sorted(set(bad)),
+                  f.loc())
+    run.floor("R7", "functions on the time-checking paths", n, 15)
+
+
 def check(run):
     run.explanation = (
         "C04: linear normal forms of every time comparison (with helper "
@@ -1009,6 +1077,7 @@ def check(run):
     r1_before_after(run)
     r2_must_call(run)
     r3_slack_provenance(run)
+    r7_clock_sources(run)
     r4_laxity_closed(run)
     r5_handlers(run)
     r6_session_expiry(run)
